@@ -1,11 +1,17 @@
 #!/bin/bash
-# usage: seeded_run.sh <name> <PROP> [more props]: apply /verif/seeded/<name>/patch.diff to /repo, run checks, undo
+# usage: seeded_run.sh <name|patchfile> <PROP> [more props]
+# apply a seeded defect to a scratch worktree of /repo (so /repo itself stays
+# untouched and other runs are not disturbed) and run the given checks
+# against it via VERIF_REPO_SRC.  (Equivalent to: git -C /repo apply; check;
+# git -C /repo checkout -- .)
 NAME=$1; shift
-cd /repo || exit 2
-git diff --quiet || { echo "repo dirty"; exit 2; }
-git apply /verif/seeded/$NAME/patch.diff || { echo "patch does not apply"; exit 2; }
-trap 'git -C /repo checkout -- . ' EXIT
-python3 /verif/tools/baseline_check.py | head -3
+PATCH=/verif/seeded/$NAME/patch.diff
+[ -f "$NAME" ] && PATCH=$NAME
+WT=/dev/shm/mutrun.$$
+git -C /repo worktree add -q --detach $WT HEAD || exit 2
+trap 'git -C /repo worktree remove --force $WT' EXIT
+git -C $WT apply $PATCH || { echo "patch does not apply"; exit 2; }
+cp /repo/VERSION $WT/src/radical/pilot/VERSION 2>/dev/null
 for P in "$@"; do
-  cd /verif && VERIF_REPLAYS=/dev/shm/seeded-replays VERIF_EVIDENCE=/dev/shm/seeded-evidence ./check $P --tier ${TIER:-quick} 2>&1 | grep -E "^VIOLATION|signature=|quick:|thorough:|HARNESS" | cut -c1-200 | head -12
+  cd /verif && VERIF_REPO_SRC=$WT/src VERIF_REPLAYS=/dev/shm/seeded-replays VERIF_EVIDENCE=/dev/shm/seeded-evidence ./check $P --tier ${TIER:-quick} 2>&1 | grep -E "^VIOLATION|signature=|quick:|thorough:|HARNESS" | cut -c1-200 | head -12
 done
